@@ -9,11 +9,13 @@
 (***************************************************************************)
 EXTENDS G3DUniv
 
-PolyhedronNames == {"tet", "tet2", "cube", "box", "obl", "prism", "pyr", "octa", "wedge", "pprism", "ppyr", "hprism"}
-PolygonNames    == {"tri", "triObl", "sq", "rectObl", "trap", "par", "pent", "pentObl", "hex", "hexObl", "stripH", "stripV", "triUp", "triDown"}
+PolyhedronNames == {"tet", "tet2", "cube", "box", "obl", "prism", "pyr", "octa", "wedge", "pprism", "ppyr", "hprism", "gprismA", "gprismB"}
+PolygonNames    == {"tri", "triObl", "sq", "rectObl", "trap", "par", "pent", "pentObl", "hex", "hexObl", "stripH", "stripV", "triUp", "triDown", "gtriA", "gtriB"}
 
 Pent2 == {<<0, 0>>, <<2, 0>>, <<3, 1>>, <<2, 2>>, <<0, 2>>}
 Hex2  == {<<1, 0>>, <<2, 0>>, <<3, 1>>, <<2, 2>>, <<1, 2>>, <<0, 1>>}
+GTriA == {<<0,0,0>>, <<4,1,0>>, <<2,3,0>>}
+GTriB == {<<1,-1,0>>, <<3,3,0>>, <<-1,2,0>>}
 Lift(P2, z) == { <<p[1], p[2], z>> : p \in P2 }
 PPiped(o, v1, v2, v3) == { Add(o, Add(Scale(i, v1), Add(Scale(j, v2), Scale(k, v3)))) : i \in 0..1, j \in 0..1, k \in 0..1 }
 
@@ -46,6 +48,11 @@ VertsOf(name) ==
     [] name = "stripV"  -> {<<1,-1,0>>, <<2,-1,0>>, <<2,3,0>>, <<1,3,0>>}
     [] name = "triUp"   -> {<<0,0,0>>, <<4,0,0>>, <<2,3,0>>}
     [] name = "triDown" -> {<<0,2,0>>, <<4,2,0>>, <<2,-1,0>>}
+    \* edges of generic slope (1/4, -1, 3/2, 2, 1/4, -3/2): crossings with other faces are not dyadic, results carry float noise
+    [] name = "gtriA"   -> GTriA
+    [] name = "gtriB"   -> GTriB
+    [] name = "gprismA" -> GTriA \cup { <<p[1], p[2], 1>> : p \in GTriA }
+    [] name = "gprismB" -> GTriB \cup { <<p[1], p[2], 1>> : p \in GTriB }
 
 \* the body with the given name, all coordinates multiplied by s (so that half-lattice features are integral)
 ScaledVerts(name, s) == { LP(Scale(s, v)) : v \in VertsOf(name) }
